@@ -101,7 +101,8 @@ OK(verb, v, d, ro) ==
       kd == KindOf(t)
   IN
   IF kd = "interface" THEN (IF v.nil THEN verb \in {"v", "P", "G"} ELSE OK(verb, v.es[1], d + 1, ro))
-  ELSE IF UsesMethod(verb, t, ro) THEN (kd = "ptr" /\ v.nil) \/ CallResult(v, MethodName(t)) # Panics
+  ELSE IF UsesMethod(verb, t, ro) THEN (kd = "ptr" /\ v.nil /\ ~ZeroSize(Under(t).e))
+                                       \/ (~(kd = "ptr" /\ v.nil) /\ CallResult(v, MethodName(t)) \notin {Panics, Unmodelled})
   ELSE
   CASE kd = "bool"      -> verb \in {"v", "P", "G", "t"}
     [] IntKind(kd)      -> verb \in {"v", "P", "G", "d", "x"}
